@@ -13,14 +13,15 @@ Lemma gen_methods_are_model :
   (forall l, gen_stream l = lb_stream l) /\
   (forall names l, gen_select names l = (l, Ok (lb_select names l))).
 Proof.
-  repeat split; [apply gen_record_eq|apply gen_pop_eq|apply gen_delitem_int_eq|apply gen_delitem_slice_eq|apply gen_stream_eq|apply gen_select_eq].
+  exact (conj gen_record_eq (conj gen_pop_eq (conj gen_delitem_int_eq (conj gen_delitem_slice_eq
+           (conj gen_stream_eq gen_select_eq))))).
 Qed.
 
 (* wf_hist h: the keyword dictionaries of the record operations have distinct keys at every level (wf_dict), as
    every Python dict has *)
 Lemma gen_history_is_model : forall h s, wf_hist h ->
   gen_run s h = run s h /\ gen_final s h = final s h /\ gen_outs s h = outs s h.
-Proof. intros; repeat split; [apply gen_run_eq|apply gen_final_eq|apply gen_outs_eq]; auto. Qed.
+Proof. intros h s W. exact (conj (gen_run_eq h s W) (conj (gen_final_eq h s W) (gen_outs_eq h s W))). Qed.
 
 Lemma gen_records_in_order : forall h : list op, wf_hist h ->
   let l := st_lb (gen_final init_state h) in
